@@ -158,9 +158,15 @@ class VC:
         self.pos += 1
         return choice
 
-    def concretize(self, t, domain):
+    def concretize(self, t, domain=None):
         """Case split: returns the concrete python value of the z3 term `t`
         among `domain` (each alternative is a separate path)."""
+        from .values import Sym
+        if isinstance(t, str):
+            return t
+        if isinstance(t, Sym) and t.enum is not None:
+            code = self.concretize(t.t, list(range(len(t.enum))))
+            return t.enum[code]
         t = term(t)
         s = z3.simplify(t)
         if z3.is_string_value(s):
